@@ -24,6 +24,7 @@ EXTERNALS = [
     (9, 'exv', [], ['i64', 'i64']),
     (10, 'exu8', ['u8'], ['i64']),
     (11, 'exi16', ['i16'], ['i64']),
+    (12, 'exs', ['i64'], ['i64'] * 6 + ['i8', 'u16', 'i32', 'u32', 'u8', 'i16']),   # narrow stack arguments
 ]
 
 INT_TYPES = ['i8', 'u8', 'i16', 'u16', 'i32', 'u32', 'i64', 'u64']
@@ -776,7 +777,7 @@ class FG:
                  (self.g_ovf, 2), (self.g_local_alloca, 2), (self.g_counted_loop, 3), (self.g_call_ext, 3),
                  (self.g_call_mir, self.opts.get('w_call', 4)), (self.g_self_call, 1)]
         if self.opts.get('fp', True) and self.FR:
-            kinds += [(self.g_farith, 8), (self.g_fcmp, 6), (self.g_fconv, 4), (self.g_fmov, 4), (self.g_fbranch, 2)]
+            kinds += [(self.g_farith, 8), (self.g_fcmp, 6), (self.g_fconv, 4), (self.g_fmov, 4), (self.g_fbranch, 4)]
         tot = sum(w for _, w in kinds)
         for _ in range(n):
             x = r.randrange(tot)
@@ -809,11 +810,23 @@ class FG:
         a, b = self.special_fp(prec, a, b)
         self.emit(op, lt, a, b)
         flag = self.X_()
-        self.emit('mov', flag, Imm(r.randrange(0, 100)))
-        self.emit('jmp', lj)
-        self.place(lt)
-        self.emit('mov', flag, Imm(r.randrange(100, 200)))
-        self.place(lj)
+        if r.random() < 0.5:
+            # `bcond L; jmp L2; L:` - the if/else shape that simplify rewrites to the reversed branch
+            lelse = self.label()
+            self.emit('jmp', lelse)
+            self.place(lt)
+            self.emit('mov', flag, Imm(r.randrange(100, 200)))
+            self.emit('jmp', lj)
+            self.place(lelse)
+            self.emit('mov', flag, Imm(r.randrange(0, 100)))
+            self.place(lj)
+            self.p.features.add('fp:branch+jmp')
+        else:
+            self.emit('mov', flag, Imm(r.randrange(0, 100)))
+            self.emit('jmp', lj)
+            self.place(lt)
+            self.emit('mov', flag, Imm(r.randrange(100, 200)))
+            self.place(lj)
         self.p.features.add('fp:branch')
 
     def cond_branch(self, target):
@@ -1101,8 +1114,9 @@ def gen_program(rng, opts=None):
                 else:
                     ptrs[len(args)] = (sizes[k], k != 2)
                     args.append((rng.choice(['i64', 'p']), 'b%d' % i))
-            for i in range(rng.randrange(0, 5)):
-                args.append((rng.choice(INT_TYPES + ['i64', 'i32'] + (['f', 'd'] if fp else [])), 'a%d' % i))
+            nia = rng.randrange(0, 5) if rng.random() >= o.get('p_many_args', 0.15) else rng.randrange(6, 10)
+            for i in range(nia):
+                args.append((rng.choice(INT_TYPES + ['i64', 'i32'] + (['f', 'd'] if fp and nia < 6 else [])), 'a%d' % i))
             selfinfo = None
             if rng.random() < 0.35:
                 args.append(('i64', 'depth'))
